@@ -29,7 +29,9 @@ type Call struct {
 	Ts    uint64   `json:"ts,omitempty"`
 	// number of separate Badger transactions the call committed on the graph database
 	Commits int `json:"commits"`
-	v0      uint64
+	// batch of the universal mint the snapshot finalizes (0: not a mint snapshot)
+	Mint uint64 `json:"mint,omitempty"`
+	v0   uint64
 }
 
 // CrashStore decorates a storage.Store: every mutating method is counted and
@@ -227,6 +229,9 @@ func (s *CrashStore) WriteSnapshot(snap *common.SnapshotWithTopologicalOrder, si
 		tx, _, err := s.Store.ReadTransaction(snap.Transactions[0])
 		if err == nil && tx != nil && isConsensusType(tx.TransactionType()) {
 			c.Cons = true
+			if tx.TransactionType() == common.TransactionTypeMint {
+				c.Mint = tx.Inputs[0].Mint.Batch
+			}
 			if len(tx.References) > 0 {
 				c.Ref = s.txId(tx.References[0])
 			}
